@@ -659,13 +659,10 @@ mod sync_impl {
                 1 => *r.as_ref(),
                 2 => *r.value(),
                 _ => {
-                    // Debug goes through the value as well
-                    let v = *r.value();
-                    if format!("{:?}", r) != format!("{:?}", v) {
-                        Val { id: 0, key: v.key, size: v.size }
-                    } else {
-                        v
-                    }
+                    // Debug must not disturb anything (it prints the whole store item; its text is
+                    // not part of any property)
+                    let _ = format!("{:?}", r);
+                    *r.value()
                 }
             };
             let ttl = dur_ns(r.ttl());
@@ -781,13 +778,10 @@ mod async_impl {
                 1 => *r.as_ref(),
                 2 => *r.value(),
                 _ => {
-                    // Debug goes through the value as well
-                    let v = *r.value();
-                    if format!("{:?}", r) != format!("{:?}", v) {
-                        Val { id: 0, key: v.key, size: v.size }
-                    } else {
-                        v
-                    }
+                    // Debug must not disturb anything (it prints the whole store item; its text is
+                    // not part of any property)
+                    let _ = format!("{:?}", r);
+                    *r.value()
                 }
             };
             let ttl = dur_ns(r.ttl());
